@@ -1,7 +1,53 @@
 import PprofVerif.Base.Tok
-/- Driver operations for C17. -/
+import PprofVerif.Model.Stacks
+import PprofVerif.Spec.Stacks
+/- Driver operations for C17 (flame-graph stack set).
+   `stacks.model <idx> <profile>`  → `ok <stackset>` | `err` | `panic`, the raw (index based) dump of
+        the model's StackSet; the harness canonicalises it with the same function it uses for the
+        real StackSet.
+   `stacks.frames <idx> <profile>` → `ok <n> {<value> <m> {name file fnID line column inlined}}` | `none`,
+        the Spec's reading of "the sample's frames from caller to callee".
+   `stacks.places <n> {<m> idx…} <i>` / `stacks.self …` are not needed: the oracle evaluates these
+        statements directly on the indices. -/
 namespace Driver.C17
-open PV
+open PV PV.Stacks
 
-def ops : List (String × (List String → String)) := []
+def wSlice {α} (f : α → Wr) (s : Slice α) : Wr := Wr.bool s.nonnil ++ Wr.list f s.elems
+
+def wStack (s : Stack) : Wr := Wr.int s.value ++ wSlice Wr.nat s.sources
+def wSource (s : Source) : Wr :=
+  Wr.str s.fullName ++ Wr.str s.fileName ++ Wr.str s.uniqueName ++ Wr.bool s.inlined ++
+  Wr.int s.self ++ wSlice (fun (p : Nat × Nat) => Wr.nat p.1 ++ Wr.nat p.2) s.places
+def wStackSet (s : StackSet) : Wr :=
+  Wr.int s.total ++ wSlice wStack s.stacks ++ wSlice wSource s.sources
+
+def wFrame (f : Frame) : Wr :=
+  Wr.str f.name ++ Wr.str f.file ++ Wr.nat f.fnID ++ Wr.int f.line ++ Wr.int f.column ++ Wr.bool f.inlined
+
+def rdIdxProfile : Rd (Nat × Profile) := do
+  let i ← Rd.nat
+  let p ← Rd.profile
+  pure (i, p)
+
+def ops : List (String × (List String → String)) := [
+  ("stacks.model", fun ts =>
+    match Rd.run rdIdxProfile ts with
+    | none => "bad-op"
+    | some (i, p) =>
+      match stacks p i with
+      | .ok s => "ok " ++ Wr.render (wStackSet s)
+      | .err _ => "err"
+      | .panic _ => "panic"),
+  ("stacks.frames", fun ts =>
+    match Rd.run rdIdxProfile ts with
+    | none => "bad-op"
+    | some (i, p) =>
+      match Spec.resolve p i with
+      | some rs => "ok " ++ Wr.render (Wr.list (fun (x : Int × List Frame) => Wr.int x.1 ++ Wr.list wFrame x.2) rs)
+      | none => "none"),
+  ("valid", fun ts =>
+    match Rd.run Rd.profile ts with
+    | none => "bad-op"
+    | some p => if p.validB then "1" else "0")
+]
 end Driver.C17
